@@ -66,8 +66,83 @@ pub fn gen_net(rng: &mut Rng, in_dim: usize, rg: Regime, allow_head: bool) -> (V
     (layers, dim, neurons)
 }
 
+/// The networks shipped with the crate (float weights): distilled and compared with the reference
+/// forward pass on random inputs away from breakpoints.
+fn run_shipped(case: u64, rng: &mut Rng, ev: &mut Ev) {
+    let file = *rng.pick(&["/repo/res/nn/ecoli.npz", "/repo/res/nn/iris.npz"]);
+    let layers = match lib(case, "read_layers(shipped)", || affinitree::distill::builder::read_layers(&file).map_err(|e| format!("{}", e))) {
+        Ok(Ok(l)) => l,
+        _ => {
+            ev.skip("shipped network file not readable");
+            return;
+        }
+    };
+    let n = match layers.first() {
+        Some(affinitree::distill::builder::Layer::Linear(a)) => a.indim(),
+        _ => return,
+    };
+    ev.evaluations += 1;
+    let reference: Vec<L> = layers
+        .iter()
+        .map(|l| match l {
+            affinitree::distill::builder::Layer::Linear(a) => L::Linear(Aff::from_lib(a)),
+            affinitree::distill::builder::Layer::ReLU(i) => L::Relu(*i),
+            affinitree::distill::builder::Layer::LeakyReLU(i, a) => L::Leaky(*i, *a),
+            affinitree::distill::builder::Layer::HardTanh(i) => L::HardTanh(*i),
+            affinitree::distill::builder::Layer::HardSigmoid(i) => L::HardSigmoid(*i),
+            affinitree::distill::builder::Layer::Argmax => L::Argmax,
+            affinitree::distill::builder::Layer::ClassChar(c) => L::ClassChar(*c),
+        })
+        .collect();
+    let tree = match lib(case, "afftree_from_layers(shipped)", || afftree_from_layers(n, &layers, None)) {
+        Ok(t) => t,
+        Err(p) => {
+            ev.violation(case, "c01:shipped:distill:panic", "", json!({"file": file, "panic": p}));
+            return;
+        }
+    };
+    let ts = snap(&tree);
+    for _ in 0..200 {
+        let x: Vec<f64> = (0..n).map(|_| rng.gauss() * 2.0).collect();
+        let xq = qv(&x);
+        let margin = refnet::min_margin(&reference, &xq);
+        if margin < 1e-6 || !gen::route_rounding_safe(&ts, &x) {
+            ev.skip("input within rounding distance of a breakpoint (float regime)");
+            continue;
+        }
+        let exp = refnet::eval(&reference, &xq);
+        match ts.eval(&xq) {
+            TEv::Val(_, v) => {
+                let ok = v.len() == exp.len() && v.iter().zip(exp.iter()).all(|(a, b)| (a.to_f64() - b.to_f64()).abs() <= 1e-8 * (1.0 + b.to_f64().abs()));
+                if !ok {
+                    ev.violation(case, "c01:shipped:value", "", json!({"file": file, "x": x, "tree": v.iter().map(|q| q.to_f64()).collect::<Vec<_>>(), "network": exp.iter().map(|q| q.to_f64()).collect::<Vec<_>>()}));
+                    return;
+                }
+            }
+            o => {
+                ev.violation(case, "c01:shipped:undefined", "", json!({"file": file, "x": x, "tree": o.brief()}));
+                return;
+            }
+        }
+        if let Err(e) = lib_vs_exact(&tree, &ts, &x, case) {
+            ev.violation(case, "c01:shipped:evaluate", "", json!({"file": file, "problem": e}));
+            return;
+        }
+        ev.inc("shipped_net_inputs_checked");
+    }
+    ev.inc("shipped_nets_distilled");
+    let mut h = Hasher::new();
+    h.s(file);
+    h.u(ts.structural_hash());
+    ev.nontrivial(h.fin());
+}
+
 pub fn run_case(ctx: &Ctx, case: u64, ev: &mut Ev) {
     let mut rng = Rng::derive(ctx.seed, "C01", case);
+    if case % 2500 == 1249 {
+        run_shipped(case, &mut rng, ev);
+        return;
+    }
     let rg = match rng.below(10) {
         0..=4 => Regime::Int,
         5..=7 => Regime::Dyadic,
